@@ -3,6 +3,7 @@ Relative Components Analysis (RCA)
 """
 
 import numpy as np
+import scipy.linalg
 import warnings
 from sklearn.base import TransformerMixin
 
@@ -112,12 +113,20 @@ class RCA(MahalanobisMixin, TransformerMixin):
     # Fisher Linear Discriminant projection
     if dim < X.shape[1]:
       total_cov = np.cov(X[chunk_mask], rowvar=0)
-      tmp = np.linalg.lstsq(total_cov, inner_cov, rcond=None)[0]
-      vals, vecs = np.linalg.eig(tmp)
-      # tmp is similar to a symmetric matrix, so its eigendecomposition is
-      # real; recent numpy versions return it with a complex dtype
-      vals, vecs = vals.real, vecs.real
-      inds = np.argsort(vals)[:dim]
+      try:
+        # symmetric-definite generalised eigenproblem
+        # inner_cov v = lambda total_cov v: real eigenvalues (ascending) and
+        # linearly independent eigenvectors, also for repeated eigenvalues
+        vals, vecs = scipy.linalg.eigh(inner_cov, total_cov)
+        inds = np.arange(dim)
+      except np.linalg.LinAlgError:
+        # total_cov is not positive definite: least-squares solution
+        tmp = np.linalg.lstsq(total_cov, inner_cov, rcond=None)[0]
+        vals, vecs = np.linalg.eig(tmp)
+        # tmp is similar to a symmetric matrix, so its eigendecomposition
+        # is real; recent numpy versions return it with a complex dtype
+        vals, vecs = vals.real, vecs.real
+        inds = np.argsort(vals)[:dim]
       A = vecs[:, inds]
       inner_cov = np.atleast_2d(A.T.dot(inner_cov).dot(A))
       self.components_ = _inv_sqrtm(inner_cov).dot(A.T)
